@@ -37,13 +37,14 @@ def run(tier):
     idle = [a for a in acts if mc.coverage.get(a, (0, 0))[0] == 0]
     if idle:
         raise Broken("MCSignals: actions never taken (vacuous design check): %s" % idle)
-    # the same model with the store order of the code as it is: what does TLC predict?
-    pinned = tlc("MCSignals", "MCSignalsPinned.cfg", cwd=CORE, workers=NPROC)
-    if pinned.rc not in (0, 12):
-        raise Broken("MCSignals (pinned order): TLC rc=%s\n%s" % (pinned.rc, pinned.out[-2000:]))
-    log("[model] store order of the code as it is: %s" %
-        ("TLC finds a schedule violating %s" % pinned.violated if pinned.violated else "no violation predicted"))
-    # (B) TLC dumps every behaviour of the model (pinned order) as a schedule
+    # self-test of the invariants: with the store order the code had before its repair
+    # (stop_ = 0 after signal(); handler_ before data_) TLC must find a violating schedule
+    before = tlc("MCSignals", "MCSignalsBeforeFix.cfg", cwd=CORE, workers=NPROC)
+    if before.rc != 12 or before.violated not in INVARIANTS:
+        raise Broken("MCSignals with the pre-repair store order should violate an invariant: rc=%s violated=%s\n%s" %
+                     (before.rc, before.violated, before.out[-1500:]))
+    log("[model] pre-repair store order: TLC finds a schedule violating %s (as it must)" % before.violated)
+    # (B) TLC dumps every behaviour of the model (store order of the code) as a schedule
     gen = tlc("GenSignals", "GenSignals.cfg", cwd=CORE, workers=NPROC, xmx="12g")
     tlc_must_pass(gen, "GenSignals")
     cases = sorted(printed_json(gen, "CASE"), key=lambda c: (c["nreg"], json.dumps(c["sched"], sort_keys=True)))
@@ -123,8 +124,8 @@ def run(tier):
         bysig[str(len(c["sched"]))] = bysig.get(str(len(c["sched"])), 0) + 1
     runs = [e for e in lines if e["e"] == "Run"]
     write_evidence(PID, tier, {
-        "states": mc.distinct + pinned.distinct + gen.distinct + sum(r.distinct for r in results),
-        "transitions": mc.generated + pinned.generated + gen.generated + sum(r.generated for r in results),
+        "states": mc.distinct + before.distinct + gen.distinct + sum(r.distinct for r in results),
+        "transitions": mc.generated + before.generated + gen.generated + sum(r.generated for r in results),
         "traces_validated_against_impl": len(cases),
         "samples": [{"nreg": cases[len(cases) // 2]["nreg"], "sched": cases[len(cases) // 2]["sched"]},
                     show_log(runs[len(runs) // 2]["ev"]), show_log(runs[-1]["ev"])],
@@ -135,8 +136,8 @@ def run(tier):
                        "and the places in solve / report / after destruction; each schedule is replayed on the real SignalHandler in its own process via the guarded call-outs and the recorded log is judged by the monitor of Signals.tla",
         "design_check": {"module": "MCSignals", "distinct_states": mc.distinct, "depth": mc.depth,
                          "action_coverage": {a: mc.coverage[a][0] for a in acts if a in mc.coverage},
-                         "store_order_that_meets_the_invariants": "stop_=0 before signal(); SetHandler: handler_=0, data_=d, handler_=h",
-                         "pinned_order_first_violation_found_by_TLC": pinned.violated},
+                         "store_order": "stop_=0 before signal(); SetHandler: handler_=0, data_=d, handler_=h (the code as it is)",
+                         "self_test_pre_repair_order_violates": before.violated},
         "model_agreement": {"schedules": len(cases), "log_exactly_as_predicted": agree, "same_violated_invariants": predicted},
         "rejected_schedules": nbad, "violation_keys": len(found), "violations_new": nnew,
     }, time.time() - t0, violations=nnew,
